@@ -19,7 +19,8 @@ RULE = (
     "Hypothesis-generated sequences of 1..4 subroutines over set/add/sub/addm/subm/6 branches/jmp/array/store/load/undef/"
     "lea/ret_reg/ret_arr/qalloc/qfree, all four register banks, jump targets anywhere in 0..len (self-loops, past-the-end), "
     "unit module 1..4, arrays of length 0..9, step bound 400; executed on the repo Executor and on the reference "
-    "interpreter against the same persistent application state.  Non-trivial = >=1 taken and >=1 not-taken conditional "
+    "interpreter against the same persistent application state; a fifth of the cases run with the 'using hardware' setting (32-bit widths "
+    "enforced; cases whose reference values leave 32 bits are discarded there).  Non-trivial = >=1 taken and >=1 not-taken conditional "
     "branch, or a fault, or a modular op with a negative operand; distinct by program hash"
 )
 ASSUMPTIONS = [
@@ -168,7 +169,9 @@ def st_case(draw, max_len=25):
             subs.append(prefix + fixed)
         else:
             subs.append(_finish(body))
-    return {"unit": unit, "subs": subs, "bound": BOUND, "hostlines": draw(st.booleans())}
+    # the controller may run with the "using hardware" setting, in which 32-bit widths are enforced; programs whose values stay
+    # within 32 bits (checked on the reference run) behave the same in both settings
+    return {"unit": unit, "subs": subs, "bound": BOUND, "hostlines": draw(st.booleans()), "hardware_mode": draw(st.integers(0, 4)) == 0}
 
 
 # ------------------------------------------------------------------ execution on both sides
@@ -189,7 +192,21 @@ def run_real(case):
     from netqasm.lang.subroutine import Subroutine
     from vlib import sim
 
+    from netqasm.runtime import settings as _settings
+
     sim.reset_globals()
+    was_hw = _settings.get_is_using_hardware()
+    _settings.set_is_using_hardware(bool(case.get("hardware_mode")))
+    try:
+        return _run_real(case)
+    finally:
+        _settings.set_is_using_hardware(was_hw)
+
+
+def _run_real(case):
+    from netqasm.lang.subroutine import Subroutine
+    from vlib import sim
+
     ex = sim.TraceExecutor("node")
     ex.init_new_application(0, case["unit"])
     results = []
@@ -255,6 +272,8 @@ def check(case) -> Dict[str, Any]:
                     info["redeclared_after_return"] = "same-length" if state.regs[ops[0]] == len(state.shared_arrays[a_]) else "other-length"
             steps += 1
             info["executed"] = info.get("executed", 0) + 1
+            if case.get("hardware_mode") and any(v is not None and not -2**31 <= v < 2**31 for v in list(before["regs"].values()) + [x for a in before["arrays"].values() for x in a]):
+                raise ri.OutOfDomain("value-beyond-32-bits-in-hardware-mode")
             try:
                 m.step()
             except ri.Fault as f:
@@ -269,6 +288,8 @@ def check(case) -> Dict[str, Any]:
         for _pc, taken in m.branch_log:
             if m.prog[_pc][0] != "jmp":
                 info["taken" if taken else "not_taken"] += 1
+        if case.get("hardware_mode") and any(v is not None and not -2**31 <= v < 2**31 for v in list(state.regs.values()) + [x for a in state.arrays.values() for x in a]):
+            raise ri.OutOfDomain("value-beyond-32-bits-in-hardware-mode")
         ref_results.append({"trace": list(m.trace), "fault": fault, "bound": hit_bound, "snap": state.snapshot(), "ret_log": list(state.ret_log),
                             "shared_arrays": {a: list(v) for a, v in sorted(state.shared_arrays.items())}, "shared_regs": dict(sorted(state.shared_regs.items()))})
     real = run_real(case)
@@ -332,6 +353,8 @@ def shard(ctx: Ctx) -> None:
             labels.append("array-redeclared")
         if info.get("redeclared_after_return"):
             labels.append("array-redeclared-after-ret_arr:" + info["redeclared_after_return"])
+        if case.get("hardware_mode"):
+            labels.append("using-hardware-setting")
         labels += [f"subs:{len(case['subs'])}"] + (["step-bound"] if info["bound"] else []) + (["negmod"] if info["negmod"] else [])
         small = sum(len(s) for s in case["subs"]) <= 24
         stt.case(case, nt, labels, sample=case if small else None)
